@@ -131,6 +131,20 @@ def _build_xofields_dict(bases, data):
     return xofields
 
 
+def _dict_to_xo_names(cls, dct):
+    """Translate the python-side names used in the (nested) dictionary form
+    of a hybrid object to xobject field names."""
+    out = {}
+    for kk, vv in dct.items():
+        name = cls._inverse_rename.get(kk, kk)
+        field = getattr(cls._XoStruct, name, None)
+        inner = getattr(getattr(field, "ftype", None), "_DressingClass", None)
+        if inner is not None and isinstance(vv, dict):
+            vv = _dict_to_xo_names(inner, vv)
+        out[name] = vv
+    return out
+
+
 class MetaHybridClass(type):
     def __new__(cls, name, bases, data):
         if "_xofields" not in data.keys() and any(
@@ -296,7 +310,7 @@ class HybridClass(metaclass=MetaHybridClass):
                 dressed_kwargs[kk] = vv
                 xo_kwargs[self._inverse_rename.get(kk, kk)] = vv._xobject
             else:
-                xo_kwargs[self._inverse_rename.get(kk, kk)] = vv
+                xo_kwargs.update(_dict_to_xo_names(self.__class__, {kk: vv}))
 
         self._xobject = self._XoStruct(**xo_kwargs)
 
